@@ -77,10 +77,11 @@ func (e *textEnc) ws(depth int, need bool) {
 	count := 0
 	if need {
 		count = 1
-		// an unquoted operator must be followed by real whitespace: "+/**/" would extend the operator run
-		if k := len(e.x.b); k > 0 && e.x.m[k-1].Role == RToken && strings.IndexByte("!#%&*+-./;<=>?@^`|~", e.x.b[k-1]) >= 0 {
-			e.x.put(RWS, depth, ' ')
-		}
+	}
+	// an unquoted operator must be followed by real whitespace wherever a comment may follow (also before a closing
+	// parenthesis): ion-go, like ion-java, reads "+/*" as one operator, so "+/**/" is not "+" and a comment
+	if k := len(e.x.b); k > 0 && e.x.m[k-1].Role == RToken && strings.IndexByte("!#%&*+-./;<=>?@^`|~", e.x.b[k-1]) >= 0 {
+		e.x.put(RWS, depth, ' ')
 	}
 	if !e.o.Dense {
 		count += e.rnd(2)
